@@ -33,8 +33,10 @@ def gen_operator(rng: Rng, world: Dict[str, Any], rank: int) -> str:
     host, others = _host_op_names(world, rank)
     if not host:
         return "aten::"
+    odd = [n for n in host if n in worldgen.ODD_OP_NAMES]
     for _ in range(8):
-        name = rng.choice(host)
+        # names with characters that are special to some matching syntax are asked for by their full name often
+        name = rng.choice(odd) if (odd and rng.chance(0.4)) else rng.choice(host)
         kind = rng.weighted([("full", 4), ("prefix", 3), ("mid", 1)])
         if kind == "full":
             cand = name
